@@ -8,6 +8,7 @@ import (
 	"testing"
 
 	"github.com/jcmturner/gokrb5/v8/crypto"
+	"github.com/jcmturner/gokrb5/v8/crypto/common"
 	"pgregory.net/rapid"
 
 	"verif/harness/evid"
@@ -121,6 +122,17 @@ func eval(c Case) (evid.Verdict, bool) {
 		ok := et.VerifyChecksum(vkey, vdata, pres, vusage)
 		if ok != expect {
 			return evid.Fail(sig, "VerifyChecksum(%s presentation %x; correct %x) = %v, want %v", c.Variant, pres, want, ok, expect)
+		}
+		if c.Ck != ref.CkRC4 {
+			// the package-level helper of the simplified profile (exported API) must agree
+			if ok2 := common.VerifyChecksum(vkey, pres, vdata, vusage, et); ok2 != expect {
+				return evid.Fail("common-"+sig, "common.VerifyChecksum(%s presentation %x; correct %x) = %v, want %v", c.Variant, pres, want, ok2, expect)
+			}
+			if c.Variant == "correct" {
+				if h, err := common.GetChecksumHash(data, key, c.Usage, et); err != nil || !bytes.Equal(h, want) {
+					return evid.Fail("common-"+sigv, "common.GetChecksumHash = %x (%v), RFC value %x", h, err, want)
+				}
+			}
 		}
 		return evid.Pass()
 	})
